@@ -855,3 +855,30 @@ def _env_invariance(chk, group):
                               {"environment": environments[name], "group": group, "case": label, "default_outcome": out, "outcome": m.get(label)})
     chk.notes.append({"environment_invariance": {"group": group, "environments": list(environments), "cases": len(basemap), "comparisons": n}})
     chk.count(f"environment-invariance:{group}", n)
+
+
+
+def checksum_twin_suffix(prefix, target, fn=None):
+    """4 bytes x such that fn(prefix + x) == target, for a checksum that is affine over GF(2) in its input bits (zlib.crc32 by default): solved by Gaussian elimination on
+    the 32 unit inputs.  None when the system has no solution."""
+    import zlib
+    fn = fn or zlib.crc32
+    base = fn(prefix + bytes(4))
+    cols = [fn(prefix + (1 << i).to_bytes(4, "big")) ^ base for i in range(32)]
+    want = target ^ base
+    rows = []          # (vector, combination)
+    for i, c in enumerate(cols):
+        comb = 1 << i
+        for v, cb in rows:
+            if c ^ v < c:
+                c ^= v
+                comb ^= cb
+        if c:
+            rows.append((c, comb))
+            rows.sort(reverse=True)
+    x = 0
+    for v, cb in rows:
+        if want ^ v < want:
+            want ^= v
+            x ^= cb
+    return None if want else x.to_bytes(4, "big")
